@@ -1,5 +1,7 @@
 mod c05;
 mod c15;
+mod c20;
+mod crash;
 mod probe;
 mod rng;
 mod sexp;
@@ -15,6 +17,7 @@ fn main() {
     match argv[1].as_str() {
         "c05" => c05::main(&args),
         "c15" => c15::main(&args),
+        "c20" => c20::main(&args),
         "probe" => probe::main(&args),
         other => {
             eprintln!("unknown subcommand {}", other);
